@@ -630,6 +630,11 @@ func c16Audit(ids *c16IDs, obs []c16Obs, o *c16Outcome, dials []c16Dial, mayBeRa
 		add("server-dial-data-size-out-of-range", "DialDataRequest.NumBytes=%d, outside 30000..100000", ddr.NumBytes)
 	}
 	obsIP := c16IPOf(ob.addr)
+	if _, err := ob.addr.ValueForProtocol(ma.P_CIRCUIT); err == nil {
+		// the request arrived over a relayed connection: the IP in the connection's remote address is the RELAY's, the
+		// IP the request came from is not known to the server - no address can be "the same IP" as it
+		obsIP = nil
+	}
 	for _, d := range dials {
 		if d.Peer != requester {
 			add("server-dial-wrong-peer", "dialled %s for peer %s, the requester is %s", d.Addr, d.Peer, requester)
@@ -918,7 +923,10 @@ func c16Baseline(o *c16Outcome, dials []c16Dial, backs []c16DialBack, dialOK boo
 	if resp == nil || resp.Status != pb.DialResponse_OK || len(dials) != 1 || resp.AddrIdx != 0 {
 		return fmt.Sprintf("honest request %v: expected OK and one dial, got %s with %d dials", o.req.Addrs, c16ShowMsgs(o.msgs), len(dials))
 	}
-	if (first == c16Foreign) != (o.ddr() != nil) && o.req.Obs != 3 {
+	// (observed address 2 is a relayed connection: its IP is the relay's, so "same-ip" is not the IP the request came from
+	// and dial data is expected for every address; observed address 3 has no IP at all)
+	wantData := first == c16Foreign || o.req.Obs == 2
+	if wantData != (o.ddr() != nil) && o.req.Obs != 3 {
 		return fmt.Sprintf("honest request %v: dial data asked=%v", o.req.Addrs, o.ddr() != nil)
 	}
 	if dialOK {
